@@ -68,6 +68,8 @@ structure LinkSim where
   mMsgOpenNonEmpty : Bool := false   -- a non-empty message is being transmitted (for empty-frame check)
   /-- first close notification delivered to the sender side: (graceful, trace line) -/
   mCloseRx : Option (Bool × Nat) := none
+  /-- the caller dropped a pending `recv_chunk`: it left its chunk loop and discarded a message -/
+  mAbandoned : Bool := false
 
 structure Sim where
   name : String := ""
@@ -95,6 +97,7 @@ structure Sim where
   c03 : Bool := true
   c11 : Bool := true
   callLine : Assoc Nat := []
+  chunkCalls : List String := []
   out : List String := []
   seenCalls : List String := []
   callData : Assoc Bytes := []
@@ -520,7 +523,7 @@ def Sim.onOp (s : Sim) (line : Nat) (ws : List String) : Sim :=
         match l.recvCall with
         | some (_, kind) =>
           let st' := if kind == 1 then { l.st with partialMsg := none } else l.st
-          s.setLink name (other side) { l with recvCall := none, st := st', mPartial := if kind == 1 then none else l.mPartial }
+          s.setLink name (other side) { l with recvCall := none, st := st', mPartial := if kind == 1 then none else l.mPartial, mAbandoned := l.mAbandoned || kind == 1 }
         | none => s
       | none => s
     else s
@@ -531,7 +534,10 @@ def Sim.onOp (s : Sim) (line : Nat) (ws : List String) : Sim :=
       | some l =>
         let l := { l with recvCall := some (k, if op == "recvchunk" then 1 else if op == "recv" then 2 else 0) }
         let (l', rs) := l.runRecv []
-        ({ (s.setLink name (other side) l') with calls := s.calls.set k (name ++ ">" ++ other side, "recv") }).addPredicted rs
+        let s1 := s.setLink name (other side) l'
+        let s1 := { s1 with calls := s.calls.set k (name ++ ">" ++ other side, "recv") }
+        let s1 := { s1 with chunkCalls := if op == "recvchunk" then s.chunkCalls ++ [k] else s.chunkCalls }
+        s1.addPredicted rs
       | none => s
     else if op == "isclosed" then
       match s.link? name side with
@@ -547,6 +553,15 @@ def Sim.onOp (s : Sim) (line : Nat) (ws : List String) : Sim :=
       | none => s
     else s
   | ["cancel", k] =>
+    -- dropping a pending `recv_chunk` abandons a chunked message, whatever the model's state
+    let s := match s.calls.get? k with
+      | some (key, _) =>
+        if s.chunkCalls.contains k then
+          match s.links.get? key with
+          | some l => { s with links := s.links.set key { l with mAbandoned := true, mPartial := none } }
+          | none => s
+        else s
+      | none => s
     match s.calls.get? k with
     | some (key, role) =>
       match s.links.get? key with
@@ -560,7 +575,7 @@ def Sim.onOp (s : Sim) (line : Nat) (ws : List String) : Sim :=
               -- chunk loop (outside the documented protocol; the executable model follows, the
               -- theorems do not cover it)
               let st' := if kind == 1 then { l.st with partialMsg := none } else l.st
-              { s with links := s.links.set key { l with recvCall := none, st := st', mPartial := if kind == 1 then none else l.mPartial } }
+              { s with links := s.links.set key { l with recvCall := none, st := st', mPartial := if kind == 1 then none else l.mPartial, mAbandoned := l.mAbandoned || kind == 1 } }
             else s
           | none => s
         else
@@ -577,7 +592,7 @@ def Sim.onOp (s : Sim) (line : Nat) (ws : List String) : Sim :=
   | ["expect-drained"] =>
     -- c01: at this marker every completed send must have been delivered
     s.links.foldl (fun s (key, l) =>
-      if l.mDelivered == l.mCompleted then s
+      if l.mDelivered == l.mCompleted || l.mAbandoned then s
       else s.fail "c01" line s!"{key}: completed sends {l.mCompleted.map toHex} but delivered {l.mDelivered.map toHex}") s
   | ["mode", m] => { s with exact := m == "exact" }
   | ["dropall"] => { s with teardown := true }
@@ -609,12 +624,12 @@ def Sim.onRet (s : Sim) (line : Nat) (k : String) (res : List String) : Sim :=
       -- c01: delivered must remain a prefix of completed at all times
       -- (a send completes before its last frame can be delivered, so this holds at every `ret`)
       let inFlight : List Bytes := (s.calls.filter (fun (ck, (lk, r)) => lk == key && r != "recv" && !s.seenCalls.contains ck)).filterMap (fun (ck, _) => s.callData.get? ck)
-      let s := if role == "recv" && !(isPrefix l.mDelivered (l.mCompleted ++ inFlight.take 1)) then
+      let s := if role == "recv" && !l.mAbandoned && !(isPrefix l.mDelivered (l.mCompleted ++ inFlight.take 1)) then
           s.fail "c01" line s!"{key}: delivered {l.mDelivered.map toHex} is not a prefix of the completed sends {l.mCompleted.map toHex}"
         else s
       -- c11: end-of-stream only after every completed send was delivered
       let s := if role == "recv" && res == ["none"] && !wasPartial then
-          if l.mDelivered == l.mCompleted then s
+          if l.mDelivered == l.mCompleted || l.mAbandoned then s
           else s.fail "c11" line s!"{key}: end-of-stream reported with completed sends {l.mCompleted.map toHex} but delivered {l.mDelivered.map toHex}"
         else s
       -- c11: classification of send failures, and no new message after the sender learned of the close
@@ -705,6 +720,16 @@ def Sim.c03AtSettle (s : Sim) (line : Nat) (pend : List String) (creditLines : L
       let pendingHere := s.calls.filter (fun (ck, (lk, r)) => lk == key && r != "recv" && r != "close" && pend.contains ck)
       -- the receiver keeps receiving: one of its receive calls is pending (it is waiting for more)
       let receiving := s.calls.any (fun (ck, (lk, r)) => lk == key && r == "recv" && pend.contains ck)
+      -- (c) credits consumed by the receiver but neither still buffered nor granted back must stay
+      -- below the return threshold while the receiver is waiting in a receive call on a healthy,
+      -- drained connection (otherwise they are lost: nothing will ever return them)
+      let s := match usedReal with
+        | some used =>
+          let withheld := l.mCostRx - used - l.mGrantedTx
+          if drained && windowOpen && receiving && !s.closedPorts.contains key && withheld ≥ threshold l.cfg.limit then
+            s.fail "c03" line s!"credit leak on {key}: the receiver has consumed {l.mCostRx - used} credits, granted back {l.mGrantedTx} and withholds {withheld} (return threshold {threshold l.cfg.limit}) although it is waiting for more data"
+          else s
+        | none => s
       match pendingHere with
       | (ck, (_, role)) :: _ =>
         match poolReal, usedReal with
